@@ -58,14 +58,16 @@ func c18keys() []c18key {
 		{"gnb_id", "Gnb_id", "string", []c18val{sv(`"\x00\x01\x02"`, "\x00\x01\x02"), sv(`"\x7f\x00\x7e\x01"`, "\x7f\x00\x7e\x01"), sv(`"abc"`, "abc"), sv(`"é\x01"`, "é\x01"), sv(`"\t\n\\\""`, "\t\n\\\""), sv(`""`, ""), sv(`"\0\x01\x02"`, "\x00\x01\x02"), sv(`"\x20\x01\x20"`, "\x20\x01\x20"), sv(`"\x09\x01\x0d"`, "\x09\x01\x0d")}},
 		{"gnb_bitlength", "Gnb_bitlength", "uint64", []c18val{{"24", uint64(24)}, {"22", uint64(22)}, {"32", uint64(32)}, {"0", uint64(0)}, {"27", uint64(27)}}},
 		{"gnb_name", "Gnb_name", "string", []c18val{sv(`"open5gs"`, "open5gs"), sv("gnb-1", "gnb-1"), sv(`""`, ""), sv(`"name with spaces"`, "name with spaces"), sv(`"`+strings.Repeat("x", 150)+`"`, strings.Repeat("x", 150)), sv(`'single #quoted'`, "single #quoted"), sv(`" gnb 7 "`, " gnb 7 "), sv(`"$HOME-gnb"`, "$HOME-gnb"), sv(`"${PATH}x"`, "${PATH}x"), sv(`"a${}b$$c"`, "a${}b$$c"), sv(`"%s %d {{.}}"`, "%s %d {{.}}")}},
-		{"initial_imsi", "Initial_imsi", "string", []c18val{sv(`"001010000000001"`, "001010000000001"), sv(`"999990123456789"`, "999990123456789"), sv(`"00101000000001"`, "00101000000001"), sv(`'000000000000000'`, "000000000000000"), sv(`""`, "")}},
-		{"mcc", "Mcc", "string", []c18val{sv(`"001"`, "001"), sv(`"999"`, "999"), sv(`'000'`, "000"), sv(`"208"`, "208")}},
-		{"mnc", "Mnc", "string", []c18val{sv(`"01"`, "01"), sv(`"001"`, "001"), sv(`"99"`, "99"), sv(`'00'`, "00"), sv(`"410"`, "410")}},
+		{"initial_imsi", "Initial_imsi", "string", []c18val{sv(`"001010000000001"`, "001010000000001"), sv(`"999990123456789"`, "999990123456789"), sv(`"00101000000001"`, "00101000000001"), sv(`'000000000000000'`, "000000000000000"), sv(`""`, ""),
+			// plain (unquoted) scalars that look like numbers stay the text that was written
+			sv("001010000000001", "001010000000001"), sv("208930000000003", "208930000000003"), sv("00101000000001", "00101000000001")}},
+		{"mcc", "Mcc", "string", []c18val{sv(`"001"`, "001"), sv(`"999"`, "999"), sv(`'000'`, "000"), sv(`"208"`, "208"), sv("001", "001"), sv("208", "208"), sv("010", "010")}},
+		{"mnc", "Mnc", "string", []c18val{sv(`"01"`, "01"), sv(`"001"`, "001"), sv(`"99"`, "99"), sv(`'00'`, "00"), sv(`"410"`, "410"), sv("01", "01"), sv("08", "08"), sv("93", "93"), sv("001", "001")}},
 		{"k", "K", "string", hexAlts("465B5CE8B199B49FAA5F0A2EE238A6BC")},
 		{"opc", "OPC", "string", hexAlts("E8ED289DEBA952E4283B54E88E6183CA")},
 		{"op", "OP", "string", hexAlts("E8ED289DEBA952E4283B54E88E6183CA")},
 		{"sst", "SST", "int32", []c18val{{"1", int32(1)}, {"0", int32(0)}, {"255", int32(255)}, {"2147483647", int32(2147483647)}, {"-1", int32(-1)}}},
-		{"sd", "SD", "string", []c18val{sv(`"010203"`, "010203"), sv(`"000001"`, "000001"), sv(`""`, ""), sv(`"ffffff"`, "ffffff"), sv(`'000000'`, "000000"), sv(`"ABCDEF"`, "ABCDEF"), sv(`"00007b"`, "00007b"), sv(`"0a0B0c"`, "0a0B0c")}},
+		{"sd", "SD", "string", []c18val{sv(`"010203"`, "010203"), sv(`"000001"`, "000001"), sv(`""`, ""), sv(`"ffffff"`, "ffffff"), sv(`'000000'`, "000000"), sv(`"ABCDEF"`, "ABCDEF"), sv(`"00007b"`, "00007b"), sv(`"0a0B0c"`, "0a0B0c"), sv("010203", "010203"), sv("000001", "000001"), sv("123456", "123456"), sv("0e1234", "0e1234"), sv("0x1234", "0x1234")}},
 		{"downlink_iface", "DLIface", "string", []c18val{sv(`"enp0s8"`, "enp0s8"), sv("eth0", "eth0"), sv(`""`, ""), sv(`"lo"`, "lo"), sv(`"$USER"`, "$USER"), sv(`"if${HOME}"`, "if${HOME}")}},
 		{"uplink_iface", "ULIface", "string", []c18val{sv(`"enp0s9"`, "enp0s9"), sv("eth1", "eth1"), sv(`""`, ""), sv(`"lo"`, "lo")}},
 		{"ue_number", "UeNumber", "int", cnt(1)},
